@@ -118,20 +118,20 @@ func listenInode(port int) (string, bool) {
 	return "", false
 }
 
-// ownsSocket reports whether pid holds a descriptor of the socket with that inode.
-func ownsSocket(pid int, inode string) bool {
+// socketInodes lists the inodes of the sockets pid holds descriptors of.
+func socketInodes(pid int) map[string]bool {
 	dir := "/proc/" + strconv.Itoa(pid) + "/fd"
 	ents, err := os.ReadDir(dir)
 	if err != nil {
-		return false
+		return nil
 	}
-	want := "socket:[" + inode + "]"
+	out := map[string]bool{}
 	for _, e := range ents {
-		if l, err := os.Readlink(filepath.Join(dir, e.Name())); err == nil && l == want {
-			return true
+		if l, err := os.Readlink(filepath.Join(dir, e.Name())); err == nil && strings.HasPrefix(l, "socket:[") {
+			out[strings.TrimSuffix(strings.TrimPrefix(l, "socket:["), "]")] = true
 		}
 	}
-	return false
+	return out
 }
 
 // startCLI starts the server and returns once the child itself listens on the chosen port.
@@ -214,16 +214,17 @@ func startCLIOn(l cliLaunch, addr string, port int) (*cliProc, string) {
 			cliInfra("desync %v exited during start-up (%v):\n%s", cmd.Args[1:], p.werr, cliTail(out, 1500))
 		default:
 		}
-		if ino, ok := listenInode(port); ok {
-			if ownsSocket(p.pid, ino) {
-				return p, ""
-			}
-			if !p.hasExited() { // somebody else got the port between our test and the child's bind
-				time.Sleep(2 * time.Millisecond)
-				if ino2, ok := listenInode(port); ok && ino2 == ino && !ownsSocket(p.pid, ino) && !p.hasExited() {
-					p.kill()
-					return nil, "port " + addr + " is held by another process"
+		// ready = the child itself holds the socket that listens on the port (a successful connect
+		// alone would not tell whose listener answered). The table of all TCP sockets is only read
+		// once the child has a socket at all.
+		if socks := socketInodes(p.pid); len(socks) > 0 {
+			if ino, ok := listenInode(port); ok {
+				if socks[ino] {
+					return p, ""
 				}
+				// somebody else got the port between our test and the child's bind
+				p.kill()
+				return nil, "port " + addr + " is held by another process"
 			}
 		}
 		if time.Now().After(deadline) {
